@@ -179,19 +179,26 @@ theorem fuel_simple {B W fuel : Nat} (hfuel : (B + 2) * (2 * W + 4) ≤ fuel) : 
     omega
   omega
 
-theorem build_leaf0 (k l) : Plan.build 0 (.leaf k l) = Leaf.mk' k l := rfl
-theorem build_leaf (d k l) : Plan.build (d + 1) (.leaf k l) = NodeF.leaf (Leaf.mk' k l) := rfl
-theorem build_conj (d ps) : Plan.build (d + 1) (.conj ps) = NodeF.conj (Conj.mk' (ps.map (fun p => p.build d))) := rfl
-theorem build_disj (d ps min) : Plan.build (d + 1) (.disj ps min) =
-    if heapTakeover < ps.length then NodeF.disjH (DisjH.mk' (ps.map (fun p => p.build d)) min)
-    else NodeF.disjS (DisjS.mk' (ps.map (fun p => p.build d)) min) := rfl
-theorem build_bool (d m s n smin) : Plan.build (d + 1) (.bool m s n smin) =
-    NodeF.bool (BoolS.mk' (m.map (fun p => p.build d)) (s.map (fun p => p.build d)) (n.map (fun p => p.build d)) smin) := rfl
-theorem build_filt (d p acc) : Plan.build (d + 1) (.filt p acc) = NodeF.filt ⟨p.build d, acc⟩ := rfl
-theorem build_phrase (d p ok) : Plan.build (d + 1) (.phrase p ok) = NodeF.phrase (PhraseS.mk' (p.build d) ok) := rfl
+section
+variable {Λ : Type} (mk : LeafKind → List Nat → Λ)
+theorem build_leaf0 (k l) : Plan.build mk 0 (.leaf k l) = mk k l := rfl
+theorem build_leaf (d k l) : Plan.build mk (d + 1) (.leaf k l) = NodeF.leaf (mk k l) := rfl
+theorem build_conj (d ps) : Plan.build mk (d + 1) (.conj ps) = NodeF.conj (Conj.mk' (ps.map (fun p => p.build mk d))) := rfl
+theorem build_disj (d ps min) : Plan.build mk (d + 1) (.disj ps min) =
+    if heapTakeover < ps.length then NodeF.disjH (DisjH.mk' (ps.map (fun p => p.build mk d)) min)
+    else NodeF.disjS (DisjS.mk' (ps.map (fun p => p.build mk d)) min) := rfl
+theorem build_bool (d m s n smin) : Plan.build mk (d + 1) (.bool m s n smin) =
+    NodeF.bool (BoolS.mk' (m.map (fun p => p.build mk d)) (s.map (fun p => p.build mk d)) (n.map (fun p => p.build mk d)) smin) := rfl
+theorem build_filt (d p acc) : Plan.build mk (d + 1) (.filt p acc) = NodeF.filt ⟨p.build mk d, acc⟩ := rfl
+theorem build_phrase (d p ok) : Plan.build mk (d + 1) (.phrase p ok) = NodeF.phrase (PhraseS.mk' (p.build mk d) ok) := rfl
+end
 
-theorem build_fresh {B W fuel : Nat} (hfuel : (B + 2) * (2 * W + 4) ≤ fuel) :
-    ∀ p, PlanOK B W p → ∀ d, p.depth ≤ d → RelD fuel d (p.den B) (p.build d) .fresh := by
+/-- the tree built from a well-formed plan is fresh, for ANY leaf searchers whose constructor `mk` yields
+a fresh leaf for every sorted list below `B` -/
+theorem build_fresh {Λ : Type} {mk : LeafKind → List Nat → Λ} {LRel : List Nat → Λ → Phase → Prop}
+    {B W fuel : Nat} (hmk : ∀ k l, Sorted l → (∀ x ∈ l, x < B) → LRel l (mk k l) .fresh)
+    (hfuel : (B + 2) * (2 * W + 4) ≤ fuel) :
+    ∀ p, PlanOK B W p → ∀ d, p.depth ≤ d → RelD LRel fuel d (p.den B) (p.build mk d) .fresh := by
   intro p
   induction p using Plan.ind with
   | hleaf k l =>
@@ -199,8 +206,8 @@ theorem build_fresh {B W fuel : Nat} (hfuel : (B + 2) * (2 * W + 4) ≤ fuel) :
     cases h with
     | leaf hs hb =>
     cases d with
-    | zero => rw [build_leaf0]; simpa [RelD, Plan.den] using leaf_fresh k hs
-    | succ d => rw [build_leaf]; simpa [RelD, Plan.den] using leaf_fresh k hs
+    | zero => rw [build_leaf0]; simpa [RelD, Plan.den] using hmk k l hs hb
+    | succ d => rw [build_leaf]; simpa [RelD, Plan.den] using hmk k l hs hb
   | hconj ps ih =>
     intro h d hd
     cases h with
@@ -226,7 +233,7 @@ theorem build_fresh {B W fuel : Nat} (hfuel : (B + 2) * (2 * W + 4) ≤ fuel) :
         · simp only [Conj.mk', List.length_map]
           exact List.length_pos_iff.mpr hne
         · simp only [Conj.mk', List.map_map]
-          apply allK_map (fun p => p.den B) (fun p => p.build d) none ps
+          apply allK_map (fun p => p.den B) (fun p => p.build mk d) none ps
           intro p hp
           have hdp : p.depth ≤ d := by
             have := foldl_max_le (List.mem_map_of_mem (f := fun p => p.depth) hp) 0
@@ -253,7 +260,7 @@ theorem build_fresh {B W fuel : Nat} (hfuel : (B + 2) * (2 * W + 4) ≤ fuel) :
           obtain ⟨Li, hLi, hx⟩ := cnt_pos h1
           obtain ⟨p, hp, rfl⟩ := List.mem_map.mp hLi
           exact den_bound p (hps p hp) x hx
-      have hkids : ∀ p ∈ ps, (∀ y ∈ p.den B, y < B) ∧ RelD fuel d (p.den B) (p.build d) .fresh := by
+      have hkids : ∀ p ∈ ps, (∀ y ∈ p.den B, y < B) ∧ RelD LRel fuel d (p.den B) (p.build mk d) .fresh := by
         intro p hp
         have hdp : p.depth ≤ d := by
           have := foldl_max_le (List.mem_map_of_mem (f := fun p => p.depth) hp) 0
@@ -268,13 +275,13 @@ theorem build_fresh {B W fuel : Nat} (hfuel : (B + 2) * (2 * W + 4) ≤ fuel) :
           obtain ⟨p, hp, rfl⟩ := List.mem_map.mp hLi
           exact den_bound p (hps p hp) y hy
         · simp only [DisjH.mk', List.map_map]
-          exact allK_map (P := fun Li k _ => (∀ y ∈ Li, y < B) ∧ RelD fuel d Li k .fresh)
-            (fun p => p.den B) (fun p => p.build d) none ps hkids
+          exact allK_map (P := fun Li k _ => (∀ y ∈ Li, y < B) ∧ RelD LRel fuel d Li k .fresh)
+            (fun p => p.den B) (fun p => p.build mk d) none ps hkids
       · simp only [hwide, ↓reduceIte]
         refine ⟨ps.map (fun p => p.den B), B, min, hL, fuel_simple hfuel, rfl, rfl, ?_⟩
         simp only [DisjS.mk', List.map_map]
-        exact allK_map (P := fun Li k _ => (∀ y ∈ Li, y < B) ∧ RelD fuel d Li k .fresh)
-          (fun p => p.den B) (fun p => p.build d) none ps hkids
+        exact allK_map (P := fun Li k _ => (∀ y ∈ Li, y < B) ∧ RelD LRel fuel d Li k .fresh)
+          (fun p => p.den B) (fun p => p.build mk d) none ps hkids
   | hbool m s n k ihm ihs ihn =>
     intro h d hd
     cases h with
@@ -334,12 +341,19 @@ theorem build_fresh {B W fuel : Nat} (hfuel : (B + 2) * (2 * W + 4) ≤ fuel) :
       simp [Plan.den, List.mem_filter]
 
 /-- **the searcher tree of a well-formed plan, drained by a collector, yields exactly the plan's set** -/
-theorem plan_run_eq_den {B W : Nat} (p : Plan) (h : PlanOK B W p) : p.run B W = p.den B := by
-  unfold Plan.run
-  have hiter := relD_is_iter (fuelFor B W) p.depth (p.den B)
-  have hfresh := build_fresh (fuel := fuelFor B W) (Nat.le_refl _) p h p.depth (Nat.le_refl _)
+theorem plan_runWith_eq_den {Λ : Type} {ls : Step Λ} {mk : LeafKind → List Nat → Λ}
+    {LRel : List Nat → Λ → Phase → Prop} (hleaf : ∀ L, IsIter ls (LRel L) L) {B W : Nat}
+    (hmk : ∀ k l, Sorted l → (∀ x ∈ l, x < B) → LRel l (mk k l) .fresh)
+    (p : Plan) (h : PlanOK B W p) : p.runWith ls mk B W = p.den B := by
+  unfold Plan.runWith
+  have hiter := relD_is_iter hleaf (fuelFor B W) p.depth (p.den B)
+  have hfresh := build_fresh hmk (fuel := fuelFor B W) (Nat.le_refl _) p h p.depth (Nat.le_refl _)
   apply drain_fresh hiter (den_sorted p h) _ _ hfresh
   have := sorted_length_le (p.den B) 0 B (den_sorted p h) (fun x hx => ⟨Nat.zero_le _, den_bound p h x hx⟩)
   omega
+
+/-- … over the abstract sorted-list leaves -/
+theorem plan_run_eq_den {B W : Nat} (p : Plan) (h : PlanOK B W p) : p.run B W = p.den B :=
+  plan_runWith_eq_den leaf_is_iter_aux (fun k _ hs _ => leaf_fresh k hs) p h
 
 end Bluge.C07
